@@ -5,7 +5,34 @@ from gen.util import kvs, tparse, pick_outcome
 VIAS = [" via=readyclone", " via=swap", " via=template", " via=clone"]
 
 
+def gen_fanout(rng, tier):
+    """a helper creates the response futures and returns only them: every handle is gone before any future is
+    polled (or after some have been); the futures still go through ONE bulkhead"""
+    mx = rng.choice([1, 1, 2, 3])
+    wait = rng.choice([None, None, 0, 5, 20])
+    header = "bulkhead max=%d" % mx + ("" if wait is None else " wait=%d" % wait)
+    n = mx + rng.randint(1, 3)
+    ops = []
+    ids = list(range(1, n + 1))
+    early = rng.randint(0, mx) if rng.random() < 0.4 else 0    # polled (admitted) before the handles go
+    for c in ids:
+        ops.append("arrive %d inner=%d:%s%s" % (c, rng.choice([5, 10, 1000]), pick_outcome(rng), rng.choice(VIAS + ["", ""])))
+    for c in ids[:early]:
+        ops.append("poll %d" % c)
+    ops.append("manual dropsvc")
+    order = ids[:]
+    rng.shuffle(order)
+    for c in order:
+        ops.append("poll %d" % c)
+    for _ in range(rng.randint(0, 4)):
+        ops.append(rng.choice(["adv 5", "adv 10", "settle", "drop %d" % rng.choice(ids), "adv %d" % (wait or 3)]))
+    ops.append("settle")
+    return {"header": header, "ops": ops}
+
+
 def gen(rng, tier):
+    if rng.random() < 0.08:
+        return gen_fanout(rng, tier)
     mx = rng.choice([1, 1, 2, 2, 3, 4])
     wait = rng.choice([None, None, 0, rng.randint(1, 50), rng.randint(1, 50), rng.choice([5, 10, 20])])
     header = "bulkhead max=%d" % mx + ("" if wait is None else " wait=%d" % wait)
@@ -15,6 +42,8 @@ def gen(rng, tier):
     burn_p = rng.choice([0, 0, 0.15, 0.5])  # callers whose task has used up its cooperative budget before the first poll
     via_p = rng.choice([0, 0.3, 0.7, 1.0])  # how callers obtain the handle they call (clone / clone of a ready handle / swap idiom / the template)
     idle_p = rng.choice([0, 0, 0.1, 0.3])
+    ondrop_p = rng.choice([0, 0.3, 0.8])
+    dropsvc_p = rng.choice([0, 0, 0.5])
     ncall = rng.randint(1, 10) if rng.random() < 0.8 else rng.randint(mx, mx + 2)
     ops = []
     now = 0
@@ -44,7 +73,16 @@ def gen(rng, tier):
             if wait:
                 marks.append(now + wait)
         elif r < 0.68 and arrived:
-            ops.append("drop %d" % rng.choice(arrived))
+            c = rng.choice(arrived)
+            if pending and rng.random() < ondrop_p:
+                # a request arriving from inside the destructor of the dropped caller's inner call (or from another
+                # thread while it is being destroyed): the call is still in flight, its slot still taken
+                c2 = pending.pop(0)
+                ops.append("manual ondrop c=%d by=%d inner=%d:%s" % (c, c2, rng.choice([0, 1, 5, 20]), pick_outcome(rng)))
+                arrived.append(c2)
+            ops.append("drop %d" % c)
+        elif r < 0.70 and rng.random() < dropsvc_p:
+            ops.append("manual dropsvc")      # every handle dropped while calls are in flight or not yet polled
         elif r < 0.90:
             fut = [m for m in marks if m >= now]
             if fut and rng.random() < 0.7:
